@@ -55,7 +55,7 @@ def layout_text(data, layout):
 def check_case(mode, layout, encs, exp, d):
     import mido
     path = os.path.join(d, 'f.syx')
-    msgs = [mido.Message.from_bytes(e) for e in encs]
+    msgs = [mido.Message.from_bytes(e) for e in encs] if mode != 3 else []
     if mode == 4:
         with open(path, 'w') as f:
             f.write(BAD[layout])
@@ -81,8 +81,11 @@ def check_case(mode, layout, encs, exp, d):
     except Exception as e:
         return 'write-raises/%s' % type(e).__name__, repr(e)
     if mode == 1:
-        with open(path, 'rb') as f:
-            raw = list(f.read())
+        try:
+            with open(path, 'rb') as f:
+                raw = list(f.read())
+        except OSError as e:
+            return 'file-not-written', 'write_syx_file left no file: %r' % (e,)
         if raw != [b for e in exp for b in e]:
             return 'binary-content', 'binary file holds %r expected %r' % (raw, exp)
     try:
